@@ -60,8 +60,10 @@ func verifHarness_C18_auto() {
 			verifAssume(verifAnd(sub[i] >= 'a', sub[i] <= 'z'))
 		}
 	}
-	ct := typ + "/" + sub + params[verifChoice("params", len(params))]
-	switch verifChoice("shape", 3) {
+	pk := verifChoice("params", len(params))
+	ct := typ + "/" + sub + params[pk]
+	sk := verifChoice("shape", 3)
+	switch sk {
 	case 1:
 		ct = "" // empty Content-Type
 	case 2:
@@ -132,13 +134,29 @@ func verifHarness_C18_auto() {
 	var strictObj verifStrict
 	// an order whose only item breaks the element rules; nothing in an empty source overwrites it
 	order := verifOrder{ID: 1, Items: []verifItem{{SKU: "x", Qty: 0}}}
-	useOrder := emptySrc && verifChoice("order", 2) == 1
+	// (the two struct-type variants below are explored for plain Content-Types only)
+	useOrder := emptySrc && pk == 0 && sk == 0 && verifChoice("order", 2) == 1
+	// types without a name: first one without any rule is bound (from a query string), then one
+	// with a required field - what was learnt about the first must not be applied to the second
+	useAnon := emptySrc && !useOrder && pk == 0 && sk == 0 && verifChoice("anonymous", 2) == 1
+	var strictAnon struct {
+		Name string `query:"name" form:"name" json:"name" xml:"name" validate:"required"`
+	}
+	if useAnon {
+		var plain struct {
+			X string `query:"x" form:"x" json:"x" xml:"x"`
+		}
+		pre := &http.Request{Method: "GET", URL: &url.URL{Path: "/", RawQuery: "x=1"}, Header: http.Header{}}
+		_ = verifCatch(func() { _ = Auto(pre, &plain) })
+	}
 	verifEventsReset()
 	var err error
 	k := verifCatch(func() {
 		switch {
 		case useOrder:
 			err = Auto(req, &order)
+		case useAnon:
+			err = Auto(req, &strictAnon)
 		case emptySrc:
 			err = Auto(req, &strictObj)
 		default:
